@@ -21,6 +21,26 @@ class Fn:
             if e.id in self.cfg.get('params', {}): return e.id
             raise Untranslatable('unknown name %s' % e.id)
         if isinstance(e, ast.Constant) and e.value is None: return 'None'
+        if isinstance(e, ast.Attribute) and isinstance(e.value, ast.Name) and e.value.id in self.cfg.get('records', {}):
+            proj = self.cfg['records'][e.value.id].get(e.attr)
+            if proj is None: raise Untranslatable('unknown field %s' % e.attr)
+            return '(%s %s)' % (proj, e.value.id)
+        if isinstance(e, ast.JoinedStr):
+            parts = []
+            for v in e.values:
+                if isinstance(v, ast.Constant) and isinstance(v.value, str): parts.append(strlit(v.value))
+                elif isinstance(v, ast.FormattedValue) and v.conversion == -1 and v.format_spec is None: parts.append(self.as_str(v.value, env))
+                else: raise Untranslatable('f-string part')
+            return '(' + ' ++ '.join(parts) + ')'
+        if isinstance(e, ast.Compare) and len(e.ops)==1 and isinstance(e.ops[0], ast.In) and isinstance(e.comparators[0], ast.Name) and e.comparators[0].id in self.cfg.get('strsets', {}):
+            return '(existsb (streq %s) %s)' % (self.expr(e.left, env), self.cfg['strsets'][e.comparators[0].id])
+        if isinstance(e, ast.Call) and isinstance(e.func, ast.Name) and e.func.id in self.cfg.get('funcs', {}):
+            sig = self.cfg['funcs'][e.func.id]
+            vals = {}
+            for name, a in zip(sig['py'], e.args): vals[name] = self.expr(a, env)
+            for k in e.keywords: vals[k.arg] = self.expr(k.value, env)
+            if set(vals) != set(sig['py']): raise Untranslatable('call arity %s' % e.func.id)
+            return '(%s %s)' % (e.func.id, ' '.join(vals[n] for n in sig['coq']))
         if isinstance(e, ast.Tuple): return '(' + ', '.join(self.expr(x, env) for x in e.elts) + ')'
         if isinstance(e, ast.Subscript) and isinstance(e.slice, ast.Slice) and e.slice.upper is None and e.slice.step is None and isinstance(e.slice.lower, ast.Name) and self.cfg['types'].get(e.slice.lower.id)=='int':
             return '(skipn %s %s)' % (self.expr(e.slice.lower, env), self.expr(e.value, env))
@@ -271,48 +291,95 @@ def gen_regex(name, pattern):
             elif o==C.LITERAL: parts.append('(x =c c %d)' % a)
             else: raise Untranslatable('regex class %s' % o)
         return '(fun x => ' + ' || '.join(parts) + ')'
-    if items[0] != (C.AT, C.AT_BEGINNING) or items[-1] != (C.AT, C.AT_END): raise Untranslatable('regex anchors')
+    if items[0] != (C.AT, C.AT_BEGINNING) or items[-1] not in ((C.AT, C.AT_END), (C.AT, C.AT_END_STRING)) or len(items) != 4: raise Untranslatable('regex anchors')
+    dollar = items[-1] == (C.AT, C.AT_END)
     first = cls(items[1])
     op, (lo, hi, sub) = items[2]
     if op != C.MAX_REPEAT or lo != 0 or hi != C.MAXREPEAT: raise Untranslatable('regex repeat')
     restc = cls(list(sub)[0])
     # Python: `$` matches at the end or just before a final newline; `match` anchors at the start only
-    return ('Fixpoint %s_tail (l : str) : bool :=\n  match l with\n  | [] => true\n  | [x] => %s x || (x =c c 10)\n  | x :: l\' => %s x && %s_tail l\'\n  end.\n'
-            'Definition %s (l : str) : bool := match l with x :: l\' => %s x && %s_tail l\' | [] => false end.\n') % (name, restc, restc, name, name, first, name)
+    last = ('%s x || (x =c c 10)' % restc) if dollar else ('%s x' % restc)   # `\Z`: the very end only
+    return ('Fixpoint %s_tail (l : str) : bool :=\n  match l with\n  | [] => true\n  | [x] => %s\n  | x :: l\' => %s x && %s_tail l\'\n  end.\n'
+            'Definition %s (l : str) : bool := match l with x :: l\' => %s x && %s_tail l\' | [] => false end.\n') % (name, last, restc, name, name, first, name)
 
-if __name__=='__main__':
-    repo = sys.argv[1]
-    print(PRELUDE)
-    print('(* GENERATED from %s/nix_manipulator/expressions/primitive.py:_escape_nix_string *)' % repo)
-    print(gen_escape(repo + '/nix_manipulator/expressions/primitive.py'))
-    src = open(repo + '/nix_manipulator/cli/manipulations.py').read()
-    tree = ast.parse(src)
+
+def gen_simple(path, name, params, cfg, ret_ty):
+    """straight-line function: if / return only"""
+    c = dict(cfg); c['params'] = params
+    f = Fn(path, name, c)
+    body = f.stmts(f.fn.body, {'return': lambda e: e}, lambda e: (_ for _ in ()).throw(Untranslatable('falls off the end')))
+    return 'Definition %s %s : %s :=\n%s.\n' % (name, ' '.join('(%s : %s)' % (p, t) for p, t in params.items()), ret_ty, body)
+
+def gen_strset(tree, name):
     for n in tree.body:
-        if isinstance(n, ast.Assign) and getattr(n.targets[0],'id',None)=='_NPATH_IDENTIFIER_RE':
-            pat = n.value.args[0].value
-            print('(* GENERATED from _NPATH_IDENTIFIER_RE = re.compile(%r) *)' % pat)
-            print(gen_regex('re_npath_ident', pat))
-    print('(* GENERATED from cli/manipulations.py:_parse_npath (idiom A) *)')
-    print('Definition STATE__parse_npath : Type := (list (str * bool) * str * bool * bool * bool)%type.')
-    out, nraise = gen_fold(repo + '/nix_manipulator/cli/manipulations.py', '_parse_npath',
-                   params={'npath': 'str'},
+        if isinstance(n, ast.Assign) and getattr(n.targets[0], 'id', None) == name:
+            v = n.value
+            if isinstance(v, ast.Call) and getattr(v.func, 'id', None) == 'frozenset' and len(v.args) == 1: v = v.args[0]
+            if isinstance(v, (ast.Set, ast.Tuple, ast.List)) and all(isinstance(x, ast.Constant) and isinstance(x.value, str) for x in v.elts):
+                return 'Definition %s : list str := [%s].\n' % (name, '; '.join(strlit(x.value) for x in sorted(v.elts, key=lambda x: x.value)))
+            raise Untranslatable('%s is not a literal set of strings' % name)
+    return 'Definition %s : list str := [].  (* no such table in the source: no name is treated as a keyword *)\n' % name
+
+def guarded(label, thunk):
+    """fail closed: an untranslatable function leaves a marker and no definition"""
+    try:
+        return thunk()
+    except Untranslatable as e:
+        return '(* UNTRANSLATABLE: %s: %s *)\n' % (label, str(e).replace('*)', '* )'))
+    except Exception as e:   # unexpected source shape
+        return '(* UNTRANSLATABLE: %s: %s %s *)\n' % (label, type(e).__name__, str(e).replace('*)', '* )')[:200])
+
+def main(repo):
+    out = [PRELUDE]
+    prim = repo + '/nix_manipulator/expressions/primitive.py'
+    man = repo + '/nix_manipulator/cli/manipulations.py'
+    bnd = repo + '/nix_manipulator/expressions/binding.py'
+    out.append('(* GENERATED from expressions/primitive.py:_escape_nix_string (idiom B) *)')
+    out.append(guarded('_escape_nix_string', lambda: gen_escape(prim)))
+    tree = ast.parse(open(man).read())
+    def regex():
+        for n in tree.body:
+            if isinstance(n, ast.Assign) and getattr(n.targets[0], 'id', None) == '_NPATH_IDENTIFIER_RE':
+                pat = n.value.args[0].value
+                return '(* GENERATED from _NPATH_IDENTIFIER_RE = re.compile(%r) *)\n' % pat + gen_regex('re_npath_ident', pat)
+        raise Untranslatable('_NPATH_IDENTIFIER_RE not found')
+    out.append(guarded('_NPATH_IDENTIFIER_RE', regex))
+    out.append('(* GENERATED from cli/manipulations.py:_NIX_KEYWORDS *)')
+    out.append(guarded('_NIX_KEYWORDS', lambda: gen_strset(tree, '_NIX_KEYWORDS')))
+    out.append('(* GENERATED from cli/manipulations.py:_parse_npath (idiom A) *)')
+    out.append('Definition STATE__parse_npath : Type := (list (str * bool) * str * bool * bool * bool)%type.')
+    def pn():
+        o, nraise = gen_fold(man, '_parse_npath', params={'npath': 'str'},
                    types={'npath':'str','buffer':'strbuf','segments':'list','ch':'char','name':'str'},
                    ctors={'_NPathSegment': ['name','quoted']}, regexes={'_NPATH_IDENTIFIER_RE': 're_npath_ident'},
                    state=['segments','buffer','in_quotes','quoted_segment','escape'], ret_ty='(list (str * bool))',
                    coqtypes={'segments': 'list (str * bool)', 'buffer': 'str'})
-    print(out); print('(* raise sites: %d *)' % nraise)
-    print('(* GENERATED from cli/manipulations.py:_split_scope_npath (idiom A with break) *)')
-    print('Definition STATE__split_scope_npath : Type := nat.')
-    out, nraise = gen_fold(repo + '/nix_manipulator/cli/manipulations.py', '_split_scope_npath',
-                   params={'npath': 'str'}, types={'npath':'str','ch':'char','depth':'int','remainder':'str'},
+        return o + '(* raise sites: %d *)\n' % nraise
+    out.append(guarded('_parse_npath', pn))
+    out.append('(* GENERATED from cli/manipulations.py:_format_attr_name *)')
+    out.append(guarded('_format_attr_name', lambda: gen_simple(man, '_format_attr_name', {'segment': '(str * bool)'},
+                   {'types': {'escaped': 'str'}, 'records': {'segment': {'name': 'fst', 'quoted': 'snd'}},
+                    'strsets': {'_NIX_KEYWORDS': '_NIX_KEYWORDS'}, 'regexes': {'_NPATH_IDENTIFIER_RE': 're_npath_ident'},
+                    'funcs': {'_escape_nix_string': {'py': ['value', 'escape_interpolation'], 'coq': ['escape_interpolation', 'value']}}},
+                   'str')))
+    out.append('(* GENERATED from cli/manipulations.py:_split_scope_npath (idiom A with break) *)')
+    out.append('Definition STATE__split_scope_npath : Type := nat.')
+    def ss():
+        o, nraise = gen_fold(man, '_split_scope_npath', params={'npath': 'str'}, types={'npath':'str','ch':'char','depth':'int','remainder':'str'},
                    ctors={}, regexes={}, state=['depth'], ret_ty='(option (nat * str))', coqtypes={}, ret_some=True)
-    print(out); print('(* raise sites: %d *)' % nraise)
-    print('(* GENERATED from expressions/binding.py:_split_attrpath (idiom B over a state tuple) *)')
-    print('Definition STATE__split_attrpath : Type := (list str * str * bool * bool * nat * bool * bool)%type.')
-    out, nraise = gen_scan(repo + '/nix_manipulator/expressions/binding.py', '_split_attrpath',
-                   params={'text': 'str'},
+        return o + '(* raise sites: %d *)\n' % nraise
+    out.append(guarded('_split_scope_npath', ss))
+    out.append('(* GENERATED from expressions/binding.py:_split_attrpath (idiom B over a state tuple) *)')
+    out.append('Definition STATE__split_attrpath : Type := (list str * str * bool * bool * nat * bool * bool)%type.')
+    def sa():
+        o, nraise = gen_scan(bnd, '_split_attrpath', params={'text': 'str'},
                    types={'text':'str','buffer':'strbuf','segments':'list','ch':'char','segment':'str','interp_depth':'int'},
                    ctors={}, regexes={},
                    state=['segments','buffer','in_quotes','escape','interp_depth','interp_in_quotes','interp_escape'],
                    ret_ty='(list str)', coqtypes={'segments': 'list str', 'buffer': 'str'}, index='index', subject='text')
-    print(out); print('(* raise sites: %d *)' % nraise)
+        return o + '(* raise sites: %d *)\n' % nraise
+    out.append(guarded('_split_attrpath', sa))
+    return '\n'.join(out)
+
+if __name__=='__main__':
+    print(main(sys.argv[1]))
